@@ -283,8 +283,15 @@ type c17Info struct {
 
 func (i *c17Info) Name() string   { return i.name }
 func (i *c17Info) Addr() net.Addr { return i.addr }
+var errDialStorm = errors.New("more dials than a fallback chain over 3 servers can need")
+
 func (i *c17Info) Dial(ctx context.Context, _ Player) (net.Conn, error) {
 	*i.dials = append(*i.dials, i.name)
+	if len(*i.dials) > 8 {
+		// every listed server can be tried at most once per chain; a proxy that keeps redirecting to servers
+		// that already failed would recurse forever: unwind to the harness instead
+		panic(errDialStorm)
+	}
 	if i.mode != "kick" {
 		return nil, errors.New("scripted: connection refused by " + i.name)
 	}
@@ -438,6 +445,9 @@ func runChain(c caseID) (string, string, string) {
 		return "", "", "skip"
 	}
 	obs := fmt.Sprint(seen)
+	if panicked && pan == any(errDialStorm) {
+		return "chain/fallback-does-not-terminate", fmt.Sprintf("entry %s, modes %v: the proxy keeps redirecting to servers that already failed: dialled %v, decisions %v, want %v", c.Chain, c.Modes, dials, seen, want), obs
+	}
 	if panicked {
 		return "chain/panic", fmt.Sprintf("%v", pan), obs
 	}
